@@ -869,8 +869,14 @@ def c05k(ctx):
     ok = bool(lookups)
     for x in lookups:
         k = x.args[0]
-        owner = enclosing(x, ast.Lambda)
-        ok = ok and isinstance(k, ast.Name) and owner is not None and k.id == owner.args.args[0].arg
+        owner = enclosing(x, (ast.Lambda, ast.GeneratorExp, ast.ListComp))
+        if isinstance(owner, ast.Lambda):
+            var = owner.args.args[0].arg
+        elif owner is not None:
+            var = unparse(owner.generators[0].target)
+        else:
+            var = None
+        ok = ok and isinstance(k, ast.Name) and var is not None and k.id == var
     ctx.check(ok, 'dimensions_part:value-of-key', 'each directory name pairs a dimension key with the value looked up by that key', fn,
               fail='the dimension value is not looked up by the key of the same directory name: different dimension values share a directory')
     srt = [x for x in fn.walk() if is_call(x, 'sorted')]
@@ -906,3 +912,51 @@ def _reach_from(g, start, target, avoid):
         seen.add(k)
         stack.extend(g.succ[k])
     return False
+
+
+@rule('C05.l', floor=8)
+def c05l(ctx):
+    """bulk operations visit every tile: no return/break inside the per-tile loop of a bulk load/store/remove; the compact
+    single-bundle shortcut is keyed by the bundle file (which contains the level)"""
+    sites = [(MBT, 'MBTilesCache'), (GPKG, 'GeopackageCache'), (COMPACT, 'BundleV1'), (COMPACT, 'BundleV2'), (COMPACT, 'CompactCacheBase'),
+             ('mapproxy/cache/base.py', 'TileCacheBase'), (MBT, 'MBTilesLevelCache'), (GPKG, 'GeopackageLevelCache')]
+    for rel, cname in sites:
+        for m in ('load_tiles', 'store_tiles', 'remove_tiles'):
+            f = ctx.repo.funcs.get('%s:%s.%s' % (rel, cname, m))
+            if f is None:
+                continue
+            ctx.stats['functions'].add(f.qn)
+            loops = [s for s in f.walk() if isinstance(s, ast.For) and unparse(s.iter) in ('tiles', 'tiles_data')]
+            if not loops:
+                continue
+            bad = []
+            for lp in loops:
+                for x in ast.walk(ast.Module(body=lp.body, type_ignores=[])):
+                    if isinstance(x, ast.Return):
+                        bad.append(x)
+                    if isinstance(x, ast.Break) and enclosing(x, (ast.For, ast.While)) is lp:
+                        # `break` after picking the first usable tile is the per-level dispatch idiom: allowed only there
+                        if not (cname.endswith('LevelCache') and m == 'load_tiles'):
+                            bad.append(x)
+            ctx.check(not bad, '%s.%s:visits-every-tile' % (cname, m), 'the per-tile loop has no early return/break: a missing or failing tile does not end the bulk operation', f,
+                      fail='%s.%s leaves its per-tile loop early (line %s): the tiles after the first missing/failing one are never loaded/stored' % (
+                          cname, m, [b.lineno for b in bad]))
+    base = ctx.repo.cls(COMPACT + ':CompactCacheBase')
+    for m in ('load_tiles', 'store_tiles'):
+        f = ctx.fn('%s:CompactCacheBase.%s' % (COMPACT, m))
+        g = f.cfg
+        adds = [x for x in f.walk() if is_call(x, 'bundle_files.add')]
+        ok = bool(adds)
+        for x in adds:
+            a = x.args[0]
+            ok = ok and isinstance(a, ast.Subscript) and const_value(a.slice) == 0 and is_call(a.value, 'self._get_bundle_fname_and_offset') and \
+                unparse(a.value.args[0]).endswith('.coord')
+        ctx.check(ok, 'CompactCacheBase.%s:shortcut-key' % m, 'the single-bundle shortcut collects bundle file names (level + bundle origin) of all tiles', f,
+                  fail='the single-bundle shortcut is not keyed by the bundle file name: tiles of different levels/bundles are sent to one bundle')
+        sc = g.find(lambda x: is_call(x, 'self._get_bundle') and isinstance(getattr(x, '_parent', None), ast.Attribute))
+        sc = [(n, x) for n, x in sc if simple_name(getattr(x._parent, '_parent', None)) == m]
+        ok = bool(sc) and all(g.guarded(n, lambda at: at.op == '==' and 'len(bundle_files)' in at.text and '1' in at.text, True) for n, x in sc)
+        ctx.check(ok, 'CompactCacheBase.%s:shortcut-guard' % m, 'the shortcut is taken only when exactly one bundle file is involved', f)
+        fb = [x for x in f.walk() if is_call(x, 'self.load_tile' if m == 'load_tiles' else 'self.store_tile')]
+        ok = bool(fb) and all(isinstance(enclosing(x, ast.For), ast.For) and unparse(enclosing(x, ast.For).iter) == 'tiles' for x in fb)
+        ctx.check(ok, 'CompactCacheBase.%s:fallback-per-tile' % m, 'otherwise every tile is handled individually', f)
